@@ -11,8 +11,8 @@ from .util import subseed
 
 BUDGET = {"quick": 30, "thorough": 600}
 CHUNK = {"quick": 100, "thorough": 200}
-QUICK_RANDOM = 6000
-QUICK_SWEEPS = 150
+QUICK_RANDOM = 20000
+QUICK_SWEEPS = 400
 
 
 def gen_run(seed):
